@@ -441,6 +441,7 @@ class Origins:
         self.binops = []         # (op, stmt)
         self.aggs = []           # aggregate kinds
         self.casts = []
+        self.downcasts = set()   # enum variant names projected on the way (e.g. 'Ok', 'Some')
 
     def call_names(self):
         return {c.callee for c in self.calls} | {c.decl for c in self.calls}
@@ -456,6 +457,43 @@ class Origins:
         }
 
 
+def forward_taint(fn, seeds, stop=None):
+    """generous forward closure: every local that may carry data derived from the seed locals (through statements and
+    through any call that receives a tainted argument). `stop(call)` -> True keeps a call's result untainted."""
+    tainted = set(seeds)
+    changed = True
+    while changed:
+        changed = False
+        for i, b in fn.blocks.items():
+            for s in b['stmts']:
+                d = s['dst']['l']
+                if d in tainted:
+                    continue
+                if any(p['l'] in tainted for p in fn.stmt_sources(s)):
+                    tainted.add(d)
+                    changed = True
+                    if '*' in s['dst']['p']:
+                        # a store through a pointer also taints what the pointer was borrowed from
+                        for l in provenance(fn, d).locals:
+                            tainted.add(l)
+            t = b['term']
+            if t and t['t'] == 'call':
+                c = fn.call_at[i]
+                d = c.dst['l']
+                if d in tainted:
+                    continue
+                if any(a in tainted for a in c.arg_locals()):
+                    if stop is not None and stop(c):
+                        continue
+                    tainted.add(d)
+                    changed = True
+                    # &mut receivers are written by the call as well
+                    for a in c.arg_locals():
+                        if a not in tainted and fn.ty.get(a, '').startswith('&mut'):
+                            tainted.add(a)
+    return tainted
+
+
 def provenance(fn, start, pass_through=PASS_THROUGH, follow_all_call_args=False, stop_calls=None, max_nodes=4000):
     """Flow-insensitive backward slice from operand/place/local `start` inside `fn`.
     Follows copies, moves, refs, casts, aggregates, binops, field stores into the same base local, and
@@ -467,6 +505,9 @@ def provenance(fn, start, pass_through=PASS_THROUGH, follow_all_call_args=False,
     def push_place(pl):
         for (of, f) in place_fields(pl):
             org.fields.add((of, f))
+        for e in pl['p']:
+            if isinstance(e, dict) and 'dc' in e:
+                org.downcasts.add(e['dc'])
         if pl['l'] == 1 and fn.kind in ('Closure', 'SyntheticCoroutineBody'):
             fs = [e for e in pl['p'] if isinstance(e, dict) and 'f' in e]
             if fs:
